@@ -14,6 +14,8 @@ import XzVerif.Model.LzmaCode
 import XzVerif.Lemmas.LzmaCode
 import XzVerif.Gen.C11
 
+set_option linter.unusedSimpArgs false
+
 namespace XzVerif.C11
 open XzVerif.LzmaCode
 
@@ -218,67 +220,389 @@ theorem buf_error_exact (code : InnerArgs → Resp) (strm : Stream) (action : Na
     ∧ ((lzmaCode code strm action).ret = LZMA_BUF_ERROR →
         ∃ i', (lzmaCode code strm action).strm.internal = some i' ∧ i'.sequence = seqOfAction action
           ∧ i'.allowBufError = true) := by
+  have hiff := lzmaCode_buf_error_iff code strm action hlaw
+  refine ⟨hiff, ?_⟩
+  intro h
+  obtain ⟨i, a, r, hi, hc, hidle, habe⟩ := hiff.mp h
+  obtain ⟨i2, hi2, -, -, -, -, -, -, heq⟩ := lzmaCode_called hc
+  rw [hi] at hi2; cases hi2
+  rw [heq]
+  simp [Resp.idle] at hidle
+  simp [classify, hidle, habe]
+
+example : (lzmaCode (const 0 0 0) (exIn .run true) 0).ret = LZMA_BUF_ERROR := by decide
+example : (lzmaCode (const 0 0 0) (exIn .run false) 0).ret = LZMA_OK := by decide
+
+/-- Every history on any handle (any supported-actions mask, any inner coder that never returns LZMA_BUF_ERROR
+    itself, any actions, lengths, NULL pointers, reserved members…): LZMA_BUF_ERROR is returned on an idle call
+    whose predecessor — among the calls that reached the inner coder — idled as well, and only then. Calls that
+    are rejected before reaching the inner coder neither count nor reset. (`bufErrorMonitor` is the spec monitor
+    in Lemmas/LzmaCode.lean; it starts from the handle's current `allow_buf_error`, which is `false` after
+    every initialisation by `strm_init_resets`.) -/
+theorem buf_error_history (s : Stream) (i : Internal) (hi : s.internal = some i) (calls : List Call)
+    (hlaw : ∀ c ∈ calls, ∀ a, (c.code a).ret ≠ LZMA_BUF_ERROR) :
+    bufErrorMonitor i.allowBufError (trace s calls) :=
+  bufErrorMonitor_trace calls hlaw s i _ hi (Or.inr rfl)
+
+/-- first idle call OK, a rejected call in between does not reset, second idle call BUF_ERROR, third too,
+    then progress returns normally and re-arms the grace call. -/
+example : ((trace exStrm [exCall 0 0 0 0, exCall 9 0 0 0, exCall 0 0 0 0, exCall 0 0 0 0, exCall 0 1 0 0 10,
+                          exCall 0 0 0 0 9, exCall 0 0 0 0 9]).map (·.result.ret))
+    = [LZMA_OK, LZMA_PROG_ERROR, LZMA_BUF_ERROR, LZMA_BUF_ERROR, LZMA_OK, LZMA_OK, LZMA_BUF_ERROR] := by decide
+
+/-- After LZMA_BUF_ERROR (or at any time) a call in which the inner coder makes progress returns normally and
+    clears `allow_buf_error`. -/
+theorem buf_error_recovers (code : InnerArgs → Resp) (strm : Stream) (action : Nat) (a : InnerArgs) (r : Resp)
+    (hc : (lzmaCode code strm action).called = some (a, r)) (hok : r.ret = LZMA_OK)
+    (hprog : r.consumed ≠ 0 ∨ r.produced ≠ 0) :
+    (lzmaCode code strm action).ret = LZMA_OK
+    ∧ ∃ i', (lzmaCode code strm action).strm.internal = some i' ∧ i'.allowBufError = false
+        ∧ i'.sequence = seqOfAction action := by
+  obtain ⟨i, -, -, -, -, -, -, -, heq⟩ := lzmaCode_called hc
+  rw [heq]
+  have : ¬(r.produced = 0 ∧ r.consumed = 0) := by omega
+  simp [classify, hok, this]
+
+example : (lzmaCode (const 1 0 0) (exIn .run true) 0).ret = LZMA_OK := by decide
+
+/-! ### 7./8. End of a flush, LZMA_SEEK_NEEDED, LZMA_TIMED_OUT, non-fatal codes -/
+
+/-- LZMA_STREAM_END from the inner coder ends a SYNC_FLUSH / FULL_FLUSH / FULL_BARRIER by going back to ISEQ_RUN
+    (coding continues); under LZMA_FINISH or LZMA_RUN it is the end of the stream (ISEQ_END). -/
+theorem flush_returns_to_run (code : InnerArgs → Resp) (strm : Stream) (action : Nat) (a : InnerArgs) (r : Resp)
+    (hc : (lzmaCode code strm action).called = some (a, r)) (hr : r.ret = LZMA_STREAM_END) :
+    (lzmaCode code strm action).ret = LZMA_STREAM_END
+    ∧ ∃ i', (lzmaCode code strm action).strm.internal = some i' ∧ i'.allowBufError = false
+        ∧ i'.sequence = (if action = LZMA_SYNC_FLUSH ∨ action = LZMA_FULL_FLUSH ∨ action = LZMA_FULL_BARRIER
+                         then .run else .end_) := by
+  obtain ⟨i, -, -, -, ha, -, -, -, heq⟩ := lzmaCode_called hc
+  rw [heq]
+  have hcases : action = 0 ∨ action = 1 ∨ action = 2 ∨ action = 3 ∨ action = 4 := by omega
+  rcases hcases with rfl | rfl | rfl | rfl | rfl <;> simp [classify, hr, seqOfAction, LZMA_OK, LZMA_STREAM_END, LZMA_NO_CHECK, LZMA_UNSUPPORTED_CHECK, LZMA_GET_CHECK, LZMA_MEMLIMIT_ERROR, LZMA_TIMED_OUT, LZMA_RET_INTERNAL1, LZMA_SEEK_NEEDED, LZMA_RUN, LZMA_SYNC_FLUSH, LZMA_FULL_FLUSH, LZMA_FINISH, LZMA_FULL_BARRIER]
+
+example : ((trace exStrm [exCall 1 1 1 0, exCall 1 0 1 1 9, exCall 0 1 1 0 9, exCall 3 1 1 1 8, exCall 0 1 1 0 7]).map
+    (fun e => (e.result.ret, e.result.strm.internal.map (·.sequence))))
+    = [(LZMA_OK, some .syncFlush), (LZMA_STREAM_END, some .run), (LZMA_OK, some .run), (LZMA_STREAM_END, some .end_),
+       (LZMA_STREAM_END, some .end_)] := by decide
+
+/-- LZMA_SEEK_NEEDED is passed through; under LZMA_FINISH the handle goes back to ISEQ_RUN so that the
+    application may supply different input; under any other action the sequence is simply that action's. -/
+theorem seek_needed_resets (code : InnerArgs → Resp) (strm : Stream) (action : Nat) (a : InnerArgs) (r : Resp)
+    (hc : (lzmaCode code strm action).called = some (a, r)) (hr : r.ret = LZMA_SEEK_NEEDED) :
+    (lzmaCode code strm action).ret = LZMA_SEEK_NEEDED
+    ∧ ∃ i', (lzmaCode code strm action).strm.internal = some i' ∧ i'.allowBufError = false
+        ∧ i'.sequence = (if action = LZMA_FINISH then .run else seqOfAction action) := by
+  obtain ⟨i, -, -, -, ha, -, -, -, heq⟩ := lzmaCode_called hc
+  rw [heq]
+  have hcases : action = 0 ∨ action = 1 ∨ action = 2 ∨ action = 3 ∨ action = 4 := by omega
+  rcases hcases with rfl | rfl | rfl | rfl | rfl <;> simp [classify, hr, seqOfAction, LZMA_OK, LZMA_STREAM_END, LZMA_NO_CHECK, LZMA_UNSUPPORTED_CHECK, LZMA_GET_CHECK, LZMA_MEMLIMIT_ERROR, LZMA_TIMED_OUT, LZMA_RET_INTERNAL1, LZMA_SEEK_NEEDED, LZMA_RUN, LZMA_SYNC_FLUSH, LZMA_FULL_FLUSH, LZMA_FINISH, LZMA_FULL_BARRIER]
+
+example : ((trace exStrm [exCall 3 1 1 LZMA_SEEK_NEEDED, exCall 0 1 1 0 3]).map
+    (fun e => (e.result.ret, e.result.strm.internal.map (·.sequence))))
+    = [(LZMA_SEEK_NEEDED, some .run), (LZMA_OK, some .run)] := by decide
+
+/-- NO_CHECK, UNSUPPORTED_CHECK, GET_CHECK and MEMLIMIT_ERROR are passed through and coding may continue. -/
+theorem nonfatal_continues (code : InnerArgs → Resp) (strm : Stream) (action : Nat) (a : InnerArgs) (r : Resp)
+    (hc : (lzmaCode code strm action).called = some (a, r))
+    (hr : r.ret = LZMA_NO_CHECK ∨ r.ret = LZMA_UNSUPPORTED_CHECK ∨ r.ret = LZMA_GET_CHECK ∨ r.ret = LZMA_MEMLIMIT_ERROR) :
+    (lzmaCode code strm action).ret = r.ret
+    ∧ ∃ i', (lzmaCode code strm action).strm.internal = some i' ∧ i'.allowBufError = false
+        ∧ i'.sequence = seqOfAction action := by
+  obtain ⟨i, -, -, -, -, -, -, -, heq⟩ := lzmaCode_called hc
+  rw [heq]
+  rcases hr with hr | hr | hr | hr <;> simp [classify, hr, LZMA_OK, LZMA_STREAM_END, LZMA_NO_CHECK, LZMA_UNSUPPORTED_CHECK, LZMA_GET_CHECK, LZMA_MEMLIMIT_ERROR, LZMA_TIMED_OUT, LZMA_RET_INTERNAL1, LZMA_SEEK_NEEDED, LZMA_RUN, LZMA_SYNC_FLUSH, LZMA_FULL_FLUSH, LZMA_FINISH, LZMA_FULL_BARRIER]
+
+example : (lzmaCode (const 0 0 LZMA_MEMLIMIT_ERROR) exStrm 0).ret = LZMA_MEMLIMIT_ERROR
+    ∧ ((lzmaCode (const 0 0 LZMA_MEMLIMIT_ERROR) exStrm 0).strm.internal.map (·.sequence)) = some .run := by decide
+
+/-- The internal LZMA_TIMED_OUT becomes LZMA_OK, never LZMA_BUF_ERROR, and clears `allow_buf_error`. -/
+theorem timed_out_is_ok (code : InnerArgs → Resp) (strm : Stream) (action : Nat) (a : InnerArgs) (r : Resp)
+    (hc : (lzmaCode code strm action).called = some (a, r)) (hr : r.ret = LZMA_TIMED_OUT) :
+    (lzmaCode code strm action).ret = LZMA_OK
+    ∧ ∃ i', (lzmaCode code strm action).strm.internal = some i' ∧ i'.allowBufError = false
+        ∧ i'.sequence = seqOfAction action := by
+  obtain ⟨i, -, -, -, -, -, -, -, heq⟩ := lzmaCode_called hc
+  rw [heq]
+  simp [classify, hr, LZMA_OK, LZMA_STREAM_END, LZMA_NO_CHECK, LZMA_UNSUPPORTED_CHECK, LZMA_GET_CHECK, LZMA_MEMLIMIT_ERROR, LZMA_TIMED_OUT, LZMA_RET_INTERNAL1, LZMA_SEEK_NEEDED, LZMA_RUN, LZMA_SYNC_FLUSH, LZMA_FULL_FLUSH, LZMA_FINISH, LZMA_FULL_BARRIER]
+
+example : (lzmaCode (const 0 0 LZMA_TIMED_OUT) (exIn .run true) 0).ret = LZMA_OK := by decide
+
+/-- `lzma_code` never returns LZMA_TIMED_OUT (LZMA_RET_INTERNAL1), whatever the inner coder does; and every
+    returned value is one of OK, STREAM_END, BUF_ERROR, PROG_ERROR, OPTIONS_ERROR or literally the value the inner
+    coder returned on this call. Hence no LZMA_RET_INTERNAL* value is ever returned unless the inner coder
+    itself returned one of INTERNAL2..8 (which no coder in liblzma passes up: the correspondence run checks it
+    on the real coders). -/
+theorem internal_never_leaks (code : InnerArgs → Resp) (strm : Stream) (action : Nat) :
+    (lzmaCode code strm action).ret ≠ LZMA_TIMED_OUT
+    ∧ ((lzmaCode code strm action).ret = LZMA_OK ∨ (lzmaCode code strm action).ret = LZMA_STREAM_END
+        ∨ (lzmaCode code strm action).ret = LZMA_BUF_ERROR ∨ (lzmaCode code strm action).ret = LZMA_PROG_ERROR
+        ∨ (lzmaCode code strm action).ret = LZMA_OPTIONS_ERROR
+        ∨ ∃ a r, (lzmaCode code strm action).called = some (a, r) ∧ (lzmaCode code strm action).ret = r.ret
+            ∧ r.ret ≠ LZMA_TIMED_OUT) := by
   cases hc : (lzmaCode code strm action).called with
   | none =>
-    have hret : (lzmaCode code strm action).ret ≠ LZMA_BUF_ERROR := by
-      unfold lzmaCode at hc ⊢
-      cases hs : sanityFail strm action <;> cases hb : strm.reserved.bad <;> simp [hs, hb] at hc ⊢
-      cases hi : strm.internal with
-      | none => simp
-      | some i =>
-        cases hsw : seqSwitch i action strm.availIn with
-        | ok sq => simp [hi, hsw] at hc
-        | error e =>
-          simp only [hi, hsw]
-          unfold seqSwitch at hsw
-          cases hq : i.sequence <;> simp [hq] at hsw
-          all_goals first
-            | (split at hsw <;> simp at hsw <;> omega)
-            | (subst hsw; decide)
-            | (split at hsw <;> split at hsw <;> simp at hsw)
-            | skip
-    simp [hret]
+    rcases lzmaCode_not_called_ret hc with h | h | h
+    · exact ⟨by rw [h]; decide, Or.inr (Or.inr (Or.inr (Or.inl h)))⟩
+    · exact ⟨by rw [h]; decide, Or.inr (Or.inr (Or.inr (Or.inr (Or.inl h))))⟩
+    · exact ⟨by rw [h]; decide, Or.inr (Or.inl h)⟩
+  | some ar =>
+    obtain ⟨a, r⟩ := ar
+    obtain ⟨i, -, -, -, -, -, -, -, heq⟩ := lzmaCode_called hc
+    have hcl : ∀ I : Internal, (classify I r).2 ≠ LZMA_TIMED_OUT
+        ∧ ((classify I r).2 = LZMA_OK ∨ (classify I r).2 = LZMA_BUF_ERROR
+            ∨ ((classify I r).2 = r.ret ∧ r.ret ≠ LZMA_TIMED_OUT)) := by
+      intro I
+      unfold classify
+      repeat' split
+      all_goals simp_all [LZMA_OK, LZMA_STREAM_END, LZMA_BUF_ERROR, LZMA_TIMED_OUT, LZMA_RET_INTERNAL1, LZMA_SEEK_NEEDED]
+    obtain ⟨h1, h2⟩ := hcl { i with sequence := seqOfAction action, availIn := (advance strm r).availIn }
+    rw [heq]
+    refine ⟨h1, ?_⟩
+    rcases h2 with h | h | ⟨h, h'⟩
+    · exact Or.inl h
+    · exact Or.inr (Or.inr (Or.inl h))
+    · exact Or.inr (Or.inr (Or.inr (Or.inr (Or.inr ⟨a, r, rfl, h, h'⟩))))
+
+example : (lzmaCode (const 0 0 LZMA_TIMED_OUT) exStrm 0).ret = 0 ∧ (lzmaCode (const 0 0 102) exStrm 0).ret = 102 := by decide
+
+/-! ### 9. Accounting -/
+
+/-- One call: either the inner coder was not reached and NOTHING changed, or it was handed exactly the public
+    buffers and the action, and afterwards next_in/avail_in/total_in and next_out/avail_out/total_out have moved
+    by exactly the amounts it reported (totals modulo 2^64), the saved copy of avail_in is the new avail_in, the
+    reserved members, the coder and its supported actions are untouched. -/
+theorem accounting_exact (code : InnerArgs → Resp) (strm : Stream) (action : Nat) :
+    match (lzmaCode code strm action).called with
+    | none => (lzmaCode code strm action).strm = strm
+    | some (a, r) =>
+      a = argsOf strm action ∧ r = code a ∧
+      let s' := (lzmaCode code strm action).strm
+      s'.nextIn = strm.nextIn.map (· + r.consumed) ∧ s'.availIn = strm.availIn - r.consumed
+      ∧ s'.totalIn = (if r.consumed = 0 then strm.totalIn else (strm.totalIn + r.consumed) % 2 ^ 64)
+      ∧ s'.nextOut = strm.nextOut.map (· + r.produced) ∧ s'.availOut = strm.availOut - r.produced
+      ∧ s'.totalOut = (if r.produced = 0 then strm.totalOut else (strm.totalOut + r.produced) % 2 ^ 64)
+      ∧ s'.reserved = strm.reserved
+      ∧ ∃ i i', strm.internal = some i ∧ s'.internal = some i' ∧ i'.availIn = s'.availIn
+          ∧ i'.hasCode = i.hasCode ∧ i'.supported = i.supported := by
+  cases hc : (lzmaCode code strm action).called with
+  | none => exact lzmaCode_not_called hc
   | some ar =>
     obtain ⟨a, r⟩ := ar
     obtain ⟨i, hi, -, -, -, -, ha, hr, heq⟩ := lzmaCode_called hc
-    have hr10 : r.ret ≠ LZMA_BUF_ERROR := by rw [hr, ha]; exact hlaw
+    refine ⟨ha, hr, ?_⟩
     rw [heq]
-    simp only [hi, Option.some.injEq, Prod.mk.injEq]
-    unfold classify
-    by_cases h0 : r.ret = LZMA_OK
-    · by_cases hz : r.produced = 0 ∧ r.consumed = 0
-      · cases hb : i.allowBufError <;> simp [h0, hz, hb, Resp.idle]
-      · have : r.idle = false := by
-          simp [Resp.idle, h0]; intro h1 h2; exact hz ⟨h2, h1⟩
-        simp [h0, hz, this]
-    · have hidle : r.idle = false := by simp [Resp.idle, h0]
-      simp only [h0, if_false, hidle]
-      split
-      · simp
-      · split
-        · simp
-        · split
-          · simp
-          · split
-            · simp; omega
-            · simp; exact hr10
+    have hcl := classify_hasCode { i with sequence := seqOfAction action, availIn := (advance strm r).availIn } r
+    simp only [hi]
+    refine ⟨?_, ?_, ?_, ?_, ?_, ?_, ?_, i, _, rfl, rfl, hcl.2.2, hcl.1, hcl.2.1⟩
+    all_goals
+      unfold advance
+      by_cases h1 : r.consumed > 0 <;> by_cases h2 : r.produced > 0 <;> simp [h1, h2, U64]
+    all_goals first
+      | omega
+      | (cases strm.nextIn <;> simp <;> omega)
+      | (cases strm.nextOut <;> simp <;> omega)
+      | skip
 
-/-- Spec monitor for a whole trace: `last` remembers whether the most recent call that reached the inner coder
-    was an idle LZMA_OK. It accepts iff LZMA_BUF_ERROR is returned exactly on an idle call whose predecessor
-    (among the calls that reached the inner coder) was idle as well. -/
-def bufErrorMonitor : Bool → List Entry → Prop
-  | _, [] => True
-  | last, e :: es =>
-    (e.result.ret = LZMA_BUF_ERROR ↔ ∃ a r, e.result.called = some (a, r) ∧ r.idle = true ∧ last = true)
-    ∧ bufErrorMonitor (match e.result.called with | some (_, r) => r.idle | none => last) es
+/-- With a lawful inner coder (`consumed ≤ in_size`, `produced ≤ out_size`) nothing is lost: the bytes still
+    available plus the bytes consumed are the bytes that were available (same for the output space). -/
+theorem accounting_conserves (code : InnerArgs → Resp) (strm : Stream) (action : Nat) (a : InnerArgs) (r : Resp)
+    (hc : (lzmaCode code strm action).called = some (a, r))
+    (hlaw : r.consumed ≤ a.inSize ∧ r.produced ≤ a.outSize) :
+    (lzmaCode code strm action).strm.availIn + r.consumed = strm.availIn
+    ∧ (lzmaCode code strm action).strm.availOut + r.produced = strm.availOut := by
+  have h := accounting_exact code strm action
+  rw [hc] at h
+  obtain ⟨ha, -, -, h1, -, -, h2, -⟩ := h
+  subst ha
+  simp [argsOf] at hlaw
+  omega
 
-/-- Every history on a freshly initialised handle (any supported-actions mask, any inner coder that never
-    returns LZMA_BUF_ERROR itself, any actions, lengths, NULL pointers, reserved members…): LZMA_BUF_ERROR is
-    returned on the second consecutive idle call and only then. Calls that are rejected before reaching the inner
-    coder neither count nor reset. -/
-theorem buf_error_history (s : Stream) (i : Internal) (hi : s.internal = some i) (calls : List Call)
-    (hlaw : ∀ c ∈ calls, ∀ a, (c.code a).ret ≠ LZMA_BUF_ERROR) :
-    bufErrorMonitor i.allowBufError (trace s calls) ∨ i.sequence = .error := by
-  sorry
+example : (lzmaCode (const 3 4 0) exStrm 0).strm
+    = { exStrm with nextIn := some 1003, availIn := 7, totalIn := 3, nextOut := some 2004, availOut := 16, totalOut := 4,
+                    internal := some { exInternal .run with availIn := 7 } } := by decide
+example : (lzmaCode (const 3 4 0) { exStrm with totalIn := 2 ^ 64 - 1 } 0).strm.totalIn = 2 := by decide
+
+/-- Over EVERY history in which the application does not overwrite the totals: total_in / total_out have grown
+    by exactly the sum of what the inner coder reported (modulo 2^64), rejected calls contributing nothing. -/
+theorem accounting_history (s : Stream) (calls : List Call) (hnt : ∀ c ∈ calls, c.totals = none) :
+    (finalState s calls).totalIn % 2 ^ 64 = (s.totalIn + consumedSum (trace s calls)) % 2 ^ 64
+    ∧ (finalState s calls).totalOut % 2 ^ 64 = (s.totalOut + producedSum (trace s calls)) % 2 ^ 64 := by
+  induction calls generalizing s with
+  | nil => simp [finalState, trace, consumedSum, producedSum]
+  | cons c cs ih =>
+    have hnt' : ∀ c' ∈ cs, c'.totals = none := fun c' h => hnt c' (List.mem_cons_of_mem _ h)
+    have hc0 : c.totals = none := hnt c (List.mem_cons_self ..)
+    obtain ⟨ih1, ih2⟩ := ih (step s c).strm hnt'
+    have hacc := accounting_exact c.code (c.apply s) c.action
+    have hin : (c.apply s).totalIn = s.totalIn := by simp [Call.apply, hc0]
+    have hout : (c.apply s).totalOut = s.totalOut := by simp [Call.apply, hc0]
+    simp only [finalState, trace, consumedSum, producedSum, List.map_cons, List.sum_cons] at ih1 ih2 ⊢
+    rw [ih1, ih2]
+    cases hc : (step s c).called with
+    | none =>
+      have hc' : (lzmaCode c.code (c.apply s) c.action).called = none := hc
+      rw [hc'] at hacc
+      have : (step s c).strm = c.apply s := hacc
+      rw [this, hin, hout]
+      simp
+    | some ar =>
+      obtain ⟨a, r⟩ := ar
+      have hc' : (lzmaCode c.code (c.apply s) c.action).called = some (a, r) := hc
+      rw [hc'] at hacc
+      obtain ⟨-, -, -, -, h1, -, -, h2, -⟩ := hacc
+      have e1 : (step s c).strm.totalIn = _ := h1
+      have e2 : (step s c).strm.totalOut = _ := h2
+      rw [e1, e2, hin, hout]
+      simp only []
+      constructor
+      · split <;> omega
+      · split <;> omega
+
+example : (finalState exStrm [exCall 0 3 4 0, exCall 9 1 1 0, exCall 0 2 0 0 7]).totalIn = 5
+    ∧ consumedSum (trace exStrm [exCall 0 3 4 0, exCall 9 1 1 0, exCall 0 2 0 0 7]) = 5 := by decide
+
+/-! ### 10. The saved copy of avail_in is never read before it is written
+
+    `lzma_strm_init` does not initialise `internal->avail_in` (it is whatever the allocator returned). The
+    next theorem shows this is harmless: the field is only read in the four flush/finish states, which can only
+    be entered through a call that has just written it. -/
+
+/-- (`SameButSaved`, the simulation relation used in the proof, is in Lemmas/LzmaCode.lean.) -/
+theorem saved_avail_in_irrelevant (m j1 j2 : Nat) (calls : List Call) :
+    (trace (installCoder Stream.init m j1) calls).map (fun e => (e.result.ret, e.result.called))
+    = (trace (installCoder Stream.init m j2) calls).map (fun e => (e.result.ret, e.result.called)) := by
+  have key : ∀ (calls : List Call) (s1 s2 : Stream), SameButSaved s1 s2 →
+      (trace s1 calls).map (fun e => (e.result.ret, e.result.called))
+      = (trace s2 calls).map (fun e => (e.result.ret, e.result.called)) := by
+    intro calls
+    induction calls with
+    | nil => intros; rfl
+    | cons c cs ih =>
+      intro s1 s2 hsame
+      obtain ⟨e1, e2, e3, e4, e5, e6, e7, i1, i2, hi1, hi2, f1, f2, f3, f4, f5⟩ := hsame
+      -- the streams after the application wrote its members are still related
+      have hA : (c.apply s1).nextIn = (c.apply s2).nextIn ∧ (c.apply s1).availIn = (c.apply s2).availIn
+          ∧ (c.apply s1).totalIn = (c.apply s2).totalIn ∧ (c.apply s1).nextOut = (c.apply s2).nextOut
+          ∧ (c.apply s1).availOut = (c.apply s2).availOut ∧ (c.apply s1).totalOut = (c.apply s2).totalOut
+          ∧ (c.apply s1).reserved = (c.apply s2).reserved := by
+        simp [Call.apply, e3, e6]
+      obtain ⟨a1, a2, a3, a4, a5, a6, a7⟩ := hA
+      have hI1 : (c.apply s1).internal = some i1 := by rw [apply_internal, hi1]
+      have hI2 : (c.apply s2).internal = some i2 := by rw [apply_internal, hi2]
+      have hsan : sanityFail (c.apply s1) c.action = sanityFail (c.apply s2) c.action := by
+        simp [sanityFail, a1, a2, a4, a5, hI1, hI2, f1, actionRejected, f3]
+      have hgate : gate (c.apply s1) c.action = gate (c.apply s2) c.action := by
+        simp [gate, hsan, a7]
+      have hsw : seqSwitch i1 c.action (c.apply s1).availIn = seqSwitch i2 c.action (c.apply s2).availIn := by
+        unfold seqSwitch
+        rw [← f2, ← a2]
+        cases hq : i1.sequence <;> simp [hq, Seq.lockedAction] at f5 ⊢ <;> rw [f5]
+      have hargs : argsOf (c.apply s1) c.action = argsOf (c.apply s2) c.action := by
+        simp [argsOf, a1, a2, a4, a5]
+      simp only [trace, List.map_cons]
+      cases hg : gate (c.apply s1) c.action with
+      | some e =>
+        have hg2 := hgate ▸ hg
+        have r1 : step s1 c = ⟨c.apply s1, e, none⟩ := lzmaCode_gate hg
+        have r2 : step s2 c = ⟨c.apply s2, e, none⟩ := lzmaCode_gate hg2
+        rw [r1, r2]
+        congr 1
+        exact ih _ _ ⟨a1, a2, a3, a4, a5, a6, a7, i1, i2, hI1, hI2, f1, f2, f3, f4, f5⟩
+      | none =>
+        have hg2 := hgate ▸ hg
+        cases hs1 : seqSwitch i1 c.action (c.apply s1).availIn with
+        | error e =>
+          have r1 : step s1 c = ⟨c.apply s1, e, none⟩ := lzmaCode_early hg hI1 hs1
+          have r2 : step s2 c = ⟨c.apply s2, e, none⟩ := lzmaCode_early hg2 hI2 (hsw ▸ hs1)
+          rw [r1, r2]
+          congr 1
+          exact ih _ _ ⟨a1, a2, a3, a4, a5, a6, a7, i1, i2, hI1, hI2, f1, f2, f3, f4, f5⟩
+        | ok sq =>
+          have hs2 := hsw ▸ hs1
+          have hadv : ∀ r : Resp, (advance (c.apply s1) r).nextIn = (advance (c.apply s2) r).nextIn
+              ∧ (advance (c.apply s1) r).availIn = (advance (c.apply s2) r).availIn
+              ∧ (advance (c.apply s1) r).totalIn = (advance (c.apply s2) r).totalIn
+              ∧ (advance (c.apply s1) r).nextOut = (advance (c.apply s2) r).nextOut
+              ∧ (advance (c.apply s1) r).availOut = (advance (c.apply s2) r).availOut
+              ∧ (advance (c.apply s1) r).totalOut = (advance (c.apply s2) r).totalOut
+              ∧ (advance (c.apply s1) r).reserved = (advance (c.apply s2) r).reserved := by
+            intro r
+            unfold advance
+            by_cases h1 : r.consumed > 0 <;> by_cases h2 : r.produced > 0 <;> simp [h1, h2, a1, a2, a3, a4, a5, a6, a7]
+          have r1 : step s1 c = _ := lzmaCode_ok (code := c.code) hg hI1 hs1
+          have r2 : step s2 c = _ := lzmaCode_ok (code := c.code) hg2 hI2 hs2
+          rw [r1, r2, ← hargs]
+          obtain ⟨b1, b2, b3, b4, b5, b6, b7⟩ := hadv (c.code (argsOf (c.apply s1) c.action))
+          have hI : ({ i1 with sequence := sq, availIn := (advance (c.apply s1) (c.code (argsOf (c.apply s1) c.action))).availIn } : Internal)
+              = { i2 with sequence := sq, availIn := (advance (c.apply s2) (c.code (argsOf (c.apply s1) c.action))).availIn } := by
+            rw [b2]
+            cases i1; cases i2; simp_all
+          simp only []
+          congr 1
+          · rw [hI]
+          · apply ih
+            exact ⟨b1, b2, b3, b4, b5, b6, b7, _, _, rfl, rfl, by rw [hI], by rw [hI], by rw [hI], by rw [hI],
+              fun _ => by rw [hI]⟩
+  apply key
+  refine ⟨rfl, rfl, rfl, rfl, rfl, rfl, rfl, _, _, rfl, rfl, rfl, rfl, rfl, rfl, ?_⟩
+  intro h
+  simp [installCoder, lzmaStrmInit, Stream.init, Seq.lockedAction] at h
+
+example : (trace (installCoder Stream.init 31 0) [exCall 3 1 1 0, exCall 3 1 1 0 9]).map (·.result.ret)
+    = (trace (installCoder Stream.init 31 12345) [exCall 3 1 1 0, exCall 3 1 1 0 9]).map (·.result.ret) := by decide
+
+/-! ### 11. lzma_end -/
+
+/-- After `lzma_end` every call is a programming error until the handle is initialised again. -/
+theorem after_lzma_end (strm : Stream) (calls : List Call) :
+    ∀ e ∈ trace (lzmaEnd strm) calls, e.result.ret = LZMA_PROG_ERROR ∧ e.result.called = none
+      ∧ e.result.strm.internal = none := by
+  have key : ∀ (calls : List Call) (s : Stream), s.internal = none →
+      ∀ e ∈ trace s calls, e.result.ret = LZMA_PROG_ERROR ∧ e.result.called = none ∧ e.result.strm.internal = none := by
+    intro calls
+    induction calls with
+    | nil => intro s _ e he; simp [trace] at he
+    | cons c cs ih =>
+      intro s hs e he
+      have hstep : step s c = ⟨c.apply s, LZMA_PROG_ERROR, none⟩ :=
+        prog_error_cases c.code (c.apply s) c.action (Or.inr (Or.inr (Or.inr (Or.inr (Or.inl (by rw [apply_internal, hs]))))))
+      simp only [trace, List.mem_cons] at he
+      rcases he with rfl | he
+      · simp [hstep, apply_internal, hs]
+      · exact ih (step s c).strm (by rw [hstep]; simp [apply_internal, hs]) e he
+  exact key calls (lzmaEnd strm) rfl
+
+example : (trace (lzmaEnd exStrm) [exCall 0 1 1 0, exCall 3 1 1 0]).map (·.result.ret)
+    = [LZMA_PROG_ERROR, LZMA_PROG_ERROR] := by decide
+
+/-! ### 12. Bridges to the code (Gen/C11.lean is regenerated from /repo by harness/gen_c11.c on every run) -/
+
+/-- The complete control table of the REAL `lzma_code()` — every (sequence, allow_buf_error, action 0..5,
+    avail_in changed or not, inner return value 0..13/100..109 except BUF_ERROR, progress kind), obtained by
+    running the compiled function on a stub coder — equals the model's table (2716 cells, kernel evaluation). -/
+theorem control_table_bridge : Gen.C11.table = modelTable := by decide +kernel
+
+/-- Every public init function installs exactly the documented set of supported actions. -/
+theorem supported_per_coder :
+    Gen.C11.supported.all (fun nm => documentedSupported nm.1 == some nm.2) = true
+    ∧ 16 ≤ Gen.C11.supported.length := by decide
+
+/-- The enum values the model uses are the ones in api/lzma/base.h and common.h. -/
+theorem enum_values_bridge :
+    Gen.C11.retValues = [("LZMA_OK", LZMA_OK), ("LZMA_STREAM_END", LZMA_STREAM_END), ("LZMA_NO_CHECK", LZMA_NO_CHECK),
+      ("LZMA_UNSUPPORTED_CHECK", LZMA_UNSUPPORTED_CHECK), ("LZMA_GET_CHECK", LZMA_GET_CHECK),
+      ("LZMA_MEM_ERROR", LZMA_MEM_ERROR), ("LZMA_MEMLIMIT_ERROR", LZMA_MEMLIMIT_ERROR),
+      ("LZMA_FORMAT_ERROR", LZMA_FORMAT_ERROR), ("LZMA_OPTIONS_ERROR", LZMA_OPTIONS_ERROR),
+      ("LZMA_DATA_ERROR", LZMA_DATA_ERROR), ("LZMA_BUF_ERROR", LZMA_BUF_ERROR), ("LZMA_PROG_ERROR", LZMA_PROG_ERROR),
+      ("LZMA_SEEK_NEEDED", LZMA_SEEK_NEEDED), ("LZMA_RET_INTERNAL1", LZMA_RET_INTERNAL1),
+      ("LZMA_RET_INTERNAL8", LZMA_RET_INTERNAL8), ("LZMA_TIMED_OUT", LZMA_TIMED_OUT)]
+    ∧ Gen.C11.actionValues = [("LZMA_RUN", LZMA_RUN), ("LZMA_SYNC_FLUSH", LZMA_SYNC_FLUSH),
+      ("LZMA_FULL_FLUSH", LZMA_FULL_FLUSH), ("LZMA_FINISH", LZMA_FINISH), ("LZMA_FULL_BARRIER", LZMA_FULL_BARRIER),
+      ("LZMA_ACTION_MAX", LZMA_ACTION_MAX)]
+    ∧ Gen.C11.seqValues = [("ISEQ_RUN", Seq.run.code), ("ISEQ_SYNC_FLUSH", Seq.syncFlush.code),
+      ("ISEQ_FULL_FLUSH", Seq.fullFlush.code), ("ISEQ_FINISH", Seq.finish.code),
+      ("ISEQ_FULL_BARRIER", Seq.fullBarrier.code), ("ISEQ_END", Seq.end_.code), ("ISEQ_ERROR", Seq.error.code)]
+    ∧ Gen.C11.reservedEnum = 0
+    ∧ Gen.C11.supportedActionsLen = LZMA_ACTION_MAX + 1 := by decide
 
 end XzVerif.C11
